@@ -1155,6 +1155,9 @@ func (t *Table) MergeCellsRange(startRow, endRow, startCol, endCol int) error {
 	return nil
 }
 
+// maxTableColumns 是 WordprocessingML 表格允许的最大列数
+const maxTableColumns = 63
+
 // UnmergeCells 取消单元格合并
 func (t *Table) UnmergeCells(row, col int) error {
 	cell, err := t.GetCell(row, col)
@@ -1172,6 +1175,11 @@ func (t *Table) UnmergeCells(row, col int) error {
 		spanCount := 1
 		if cell.Properties.GridSpan.Val != "" {
 			fmt.Sscanf(cell.Properties.GridSpan.Val, "%d", &spanCount)
+		}
+		// 打开的文档中 w:gridSpan 可以是任意数值；超过表格最大列数的跨度无法还原，
+		// 否则会按该数值逐个插入单元格（数十亿次插入，耗尽内存）
+		if spanCount > maxTableColumns {
+			return fmt.Errorf("单元格(%d,%d)的列跨度%d超过了表格允许的最大列数%d", row, col, spanCount, maxTableColumns)
 		}
 
 		// 插入被合并的单元格
